@@ -22,10 +22,10 @@ def run(tier: str, seed: int):
                # default displays on (progress bars, task monitor with a display smaller than the number of workers)
                + list(F.fam_e3(F.fam_shapes(2, 3, pre=False), workers=(2,), backends=('fork',), liveness=False, monitor=True)))
     else:
-        cfgs = (list(F.fam_shapes(1, 5, batch=2)) + list(F.fam_shapes(1, 4, batch=3, bust=(False, True)))
+        cfgs = (list(F.fam_shapes(1, 4, batch=2)) + list(F.fam_shapes(5, 5, batch=2, pre=False)) + list(F.fam_shapes(1, 4, batch=3, bust=(False, True)))
                 + list(F.fam_variants(3, batch=3)) + list(F.fam_variants(2, batch=2, cross=True)))
         serial = list(F.fam_shapes(1, 4, batch=1)) + list(F.fam_variants(3))
-        rule = ('all DAG shapes n<=5 (batch<=2) and n<=4 (batch<=3, bust_cache) x requested subsets x pre-cached '
+        rule = ('all DAG shapes n<=4 with pre-cached subsets and n=5 cold (batch<=2), n<=4 (batch<=3, bust_cache) x requested subsets x pre-cached '
                 'subsets; n<=3 variants batch<=3; n<=2 full cross product of placement x dup x types x requests x pre-cache')
         e3c = (list(F.fam_e3(F.fam_shapes(1, 3), workers=(1, 2, None))) + list(F.fam_e3(F.fam_shapes(4, 4, pre=False), workers=(2, 3), cpu_count=3, liveness=False))
                + list(F.fam_e3(F.fam_variants(3), workers=(2,), liveness=False)) + list(F.fam_e3(F.fam_post_init(3), workers=(1, 2), liveness=False)))
